@@ -19,6 +19,10 @@ SPEC = {
         # close / reset / reset right behind IDLE or DONE / RemoveUser / Server.Close / a cancelled Serve context,
         # LOGOUT pipelined behind the FETCH; labels `c19teardown hang` (names the blocked goroutines),
         # `c19teardown leak` (names the goroutines left, baseline subtracted), `c19teardown command-incomplete`.
+        # `inflight` scenarios (5 directed on every seed + `-inflight N` random, default 3): the connector keeps publishing
+        # updates on an UNBUFFERED channel (scripted wrapper of the dummy connector) and RemoveUser / Server.Close start the
+        # moment the k-th update has been taken by the update injector's forwarder (k = 1, 2, 3, 8, 50, random), Noop /
+        # MailboxCreated updates, with and without sessions; label `c19teardown inflight-hang` (10 s watchdog).
         # `-stalled` (known finding K-removeuser-stalled-writer): RemoveUser while a non-reading client is still connected (`c19teardown stalled-writer`).
         {"name": "c19teardown", "quick_args": ["-n", "6", "-stalled"], "thorough_args": ["-n", "400", "-stalled"], "timeout": 3000},
         # SEARCH ONLY, thorough tier: the same scenarios + the snapshot-race scenario under a `go build -race`
@@ -33,6 +37,7 @@ SPEC = {
         "hand-written transition systems GluonModel/Model/Conc.lean of async.QueuedChannel, of Mutex/RWMutex semantics and of the teardown protocol of internal/backend (user.close/removeState/statesWG, RemoveUser/Close under usersLock, session.done); tied to the code by recorded histories (queue) and whole-server scenarios (teardown), not by proof",
         "facts translator harness/facts_locks.go (go/types over internal/backend, store, async, internal/db_impl/sqlite3 and the gluon packages they import; third-party imports replaced by empty packages): the *events* per function are trusted; summaries and lock ranks are certificates re-checked by GluonModel/Model/ConcFacts.lean",
         "hand-written transition systems GluonModel/Model/ConcCmd.lean of one command's response pipeline (producers, 8-slot channel, serve loop, drainer) and of the per-IDLE forwarder; tied to the code by the syntactic facts of harness/facts_c19gostop.go (Generated/Facts/GoStop.lean: shapes of State.Idle, endIdle, handleIdle's forwarder, serve's failed-Send branch, handleOther, the command reader; the list of goroutine starts of internal/session and internal/state) and by the whole-server teardown scenarios",
+        "hand-written transition system GluonModel/Model/ConcCmd.lean section 3 of the update injector's forwarder, the user's update goroutine and user.close's order (reader stopped first, injector closed second); tied to the code by harness/facts_c19goloops.go (Generated/Facts/GoLoops.lean: syntactic; calls followed by unique name inside the package to depth 4, function literals not entered, `for range` over a channel recognised by name only) and by the in-flight teardown scenarios",
         "Go runtime: runtime.NumGoroutine / runtime.Stack / WaitGroup as the observation of 'goroutine gone'",
     ],
     "assumptions": [
@@ -58,19 +63,26 @@ SPEC = {
         "failed-Send path keeps draining its channel), command_undrained_stuck + command_undrained_stuck_witness (without the drain it never "
         "does), idle_forwarder_exits (the per-IDLE forwarder exits on every way out of IDLE: endIdle is deferred), "
         "idle_not_deferred_leak_witness, session_goroutines_classified (the goroutine starts of internal/session and "
-        "internal/state are exactly the modelled four). "
+        "internal/state are exactly the modelled four), forwarder_close_returns (updateInjector.Close / user.close return for every "
+        "interleaving of connector publishes, deliveries and the teardown steps, the reader of updatesCh being stopped first: the "
+        "forwarder watches forwardQuitCh as far as the regenerated facts say), forwarder_unwatched_send_stuck_witness (without the "
+        "quit case in the hand-over select Close never returns). "
         "FACTS (regenerated from /repo on every run, decided by the kernel): lock_facts_checked / lockorder_acyclic "
         "(lock-order graph incl. calls, literals and callbacks run under callee locks has no cycle), guarded_access "
         "(user.states, Backend.users, WriteControlledStore.entryTable, QueuedChannel.items accessed only under their "
         "lock), facts_lockorder_no_deadlock, stateCloseDiscards = some true and serverErrChDiscards = some true (inside "
         "state_close_consumer_exits / server_errch_close_classified), GoStop facts sendFailDrains / commandClosesRespCh / respChCap / "
+        "backend_loops_watch_quit (Generated/Facts/GoLoops.lean, harness/facts_c19goloops.go: the goroutines of internal/backend are the "
+        "injector's forwarder and the user's update goroutine, and every blocking channel operation reachable from their bodies, helper "
+        "methods included, sits in a select with a returning case on the goroutine's own quit channel closed by its Close; ctx.Done() of the "
+        "background context does not count), "
         "idleEndDeferred / endIdleClosesCh / idleForwarderStopsOnClose / readerStops / serveDefersDoneAndWait / unknownSpawns = [] "
         "(unknown shapes are `none` and fail the theorem). SEARCH ONLY (no proof): data-race freedom of fields no lock guards (State.snap "
         "read by foreign goroutines, #13b), scheduler-dependent liveness, whole-server behaviour: oracles c19queue "
         "(histories of the real queue must be model runs; termination probes incl. the real State.Close), c19teardown "
         "(RemoveUser/Close return, goroutine count returns to baseline, after sessions ended in every way in every protocol "
         "state: reset/close under a large FETCH nobody reads, in a literal, in IDLE, IDLE left by DONE / malformed line / cancelled "
-        "context, pipelined LOGOUT; regression scenarios for #13a/#13c/#13d/#13a-errch) and, "
+        "context, pipelined LOGOUT; RemoveUser / Close while connector updates are in flight on an unbuffered channel; regression scenarios for #13a/#13c/#13d/#13a-errch) and, "
         "thorough tier, c19race (the same scenarios, a snapshot-race scenario and an updates-vs-login/logout scenario under "
         "`go build -race`), plus the "
         "lead's TCP stress harness."
